@@ -187,6 +187,30 @@ func call(op string, t reflect.Type, val int) (res string) {
 			cat += len(tk.Value) + tk.Depth*3 + tk.Index
 		}
 		return fmt.Sprint(n, cat, tk.Err)
+	case "json.TokenizerReuse":
+		// one Tokenizer used for several inputs: exhausted (its stack goes back to the pool), Reset
+		// half-way through a nested document, and reused again
+		b, _ := stdjson.Marshal(ptr)
+		b2 := []byte(`[[{"a":[1,[2,{"b":[3]}]]}],{"k":[[[4]]]}]`)
+		tk := segjson.NewTokenizer(b2)
+		sum := 0
+		walk := func(limit int) {
+			for n := 0; tk.Next() && (limit < 0 || n < limit); n++ {
+				sum = sum*31 + len(tk.Value) + tk.Depth*7 + tk.Index*3
+				if tk.IsKey {
+					sum++
+				}
+			}
+		}
+		walk(-1)
+		tk.Reset(b)
+		walk(4 + val%5)
+		tk.Reset(b2)
+		walk(-1)
+		tk.Next()
+		tk.Reset(b)
+		walk(-1)
+		return fmt.Sprint(sum, tk.Err)
 	case "proto.Marshal":
 		b, err := proto.Marshal(ptr)
 		out := reflect.New(t)
@@ -210,7 +234,7 @@ func call(op string, t reflect.Type, val int) (res string) {
 	return "unknown op"
 }
 
-var ops = []string{"json.Marshal", "json.Unmarshal", "json.Tokenizer", "proto.Marshal", "proto.Size", "proto.TypeOf", "thrift.Marshal.compact", "thrift.Marshal.binary"}
+var ops = []string{"json.Marshal", "json.Unmarshal", "json.Tokenizer", "json.TokenizerReuse", "proto.Marshal", "proto.Size", "proto.TypeOf", "thrift.Marshal.compact", "thrift.Marshal.binary"}
 
 type outcome struct {
 	step Step
